@@ -320,7 +320,37 @@ def rule_cmp_normalise(ctx: Ctx) -> None:
                      func=q)
 
 
+def rule_ged_zero(ctx: Ctx) -> None:
+    """ged.zero: the graph-edit-distance comparator answers "same circuit" exactly when the distance it obtained *is the number 0*.
+    networkx returns None when every edit path exceeds the upper bound (and the optimiser's generator may yield nothing), so a
+    truthiness test (`not sim`) reports the most distant circuits as equal."""
+    repo = ctx.repo
+    m = repo.module(CMP)
+    fn = repo.anchor(CMP, "ged")
+    ctx.touch(m, fn)
+    dist = {a.targets[0].id for a in ast.walk(fn) if isinstance(a, ast.Assign) and len(a.targets) == 1 and isinstance(a.targets[0], ast.Name)
+            and isinstance(a.value, ast.Call) and ((call_attr(a.value) or "").endswith("graph_edit_distance") or call_name(a.value) == "next")}
+    rets = [r for r in fn.body if isinstance(r, ast.Return) and r.value is not None] or \
+           [r for r in ast.walk(fn) if isinstance(r, ast.Return) and r.value is not None and any(isinstance(x, ast.Name) and x.id in dist for x in ast.walk(r.value))]
+    if not dist or not rets:
+        raise AnalysisError("ged: distance variable / final return not found")
+    for r in rets:
+        v = r.value
+        parts = v.values if isinstance(v, ast.BoolOp) and isinstance(v.op, ast.And) else [v]
+        eq0 = any(isinstance(p_, ast.Compare) and len(p_.ops) == 1 and isinstance(p_.ops[0], ast.Eq)
+                  and {norm(p_.left), norm(p_.comparators[0])} & {"0", "0.0"} and ({norm(p_.left), norm(p_.comparators[0])} & dist) for p_ in parts)
+        truthy = any((isinstance(x, ast.UnaryOp) and isinstance(x.op, ast.Not) and isinstance(x.operand, ast.Name) and x.operand.id in dist) for x in ast.walk(v))
+        if eq0 and not truthy:
+            ctx.ok("ged.zero", m, r, what="equal iff the edit distance is 0")
+        else:
+            ctx.fail("ged.zero", m, r,
+                     f"ged returns `{short(v)}`: the distance is None when it exceeds the search bound, and `not None` is True, so two circuits "
+                     f"more than 30 edits apart are reported equal (and a circuit storage refuses the distinct circuit); compare with `== 0`",
+                     func="ged", construct="ged: result is a truthiness test of the distance")
+
+
 def run(ctx: Ctx) -> None:
+    rule_ged_zero(ctx)
     from ..rules import memo as _memo
     _memo.rule_memo_sound(ctx, ['graphiq/utils/circuit_comparison.py'])
     _memo.rule_falsy_zero(ctx, ['graphiq/utils/circuit_comparison.py'])
@@ -336,6 +366,7 @@ def run(ctx: Ctx) -> None:
 
 
 KNOCKOUTS = [
+    Knockout("ged-truthiness", CMP, sub_once("    return sim == 0\n", "    return not sim\n"), "ged.zero", "truthiness"),
     Knockout("multiedge-first-only", CMP,
              sub_once("        roles1 = sorted(str(attr[\"control_target\"]) for attr in e1.values())\n        roles2 = sorted(str(attr[\"control_target\"]) for attr in e2.values())\n        return roles1 == roles2",
                       "        return e1[next(iter(e1))][\"control_target\"] == e2[next(iter(e2))][\"control_target\"]"),
